@@ -139,6 +139,10 @@ _op("s[::2]", *_slice(None, None, 2))
 _op("s[::-1]", *_slice(None, None, -1))
 _op("s[1:3]", *_slice(1, 3, None))
 _op("s[0:5]", *_slice(0, 5, None))
+_op("s[0:-3]", *_slice(0, -3, None))      # a negative stop that may lie before the start of the list
+_op("s[:-4]", *_slice(None, -4, None))
+_op("s[-2:]", *_slice(-2, None, None))
+_op("s[-5:2]", *_slice(-5, 2, None))
 _op("len", lambda L: len(L), lambda M: len(M))
 _op("iter", lambda L: list(iter(L)), lambda M: list(M))
 _op("bool", lambda L: bool(L), lambda M: bool(M))
